@@ -92,6 +92,28 @@ static void line_alloc(line_t *l, unsigned n, int guarded)
     if (!l->base) { fprintf(stderr, "h_filter: out of memory\n"); exit(2); }
     memset(l->p, 0xA5, n * sizeof(double)); /* garbage: init/set_num/set_den have to establish the zero state */
 }
+/* both delay lines of one filter. One case in four carves them out of ONE exact-size block, the way a filter-state struct or a single state array is
+   laid out in embedded code: input line directly followed by the output line, or the other way round. The two lines are then adjacent objects: a
+   routine that treats them as one (seeded change C16-M: a single joint shift when output == input + num_n, done before the feedback sum has read
+   the output line) is a different filter for that layout only. */
+static void lines_alloc(line_t *in, unsigned n, line_t *out, unsigned m, int guarded)
+{
+    unsigned const lay = (unsigned)(vf.case_no & 3);
+    if (guarded || lay < 2 || n + m == 0)
+    {
+        line_alloc(in, n, guarded);
+        line_alloc(out, m, guarded);
+        return;
+    }
+    in->n = n; out->n = m;
+    in->guarded = out->guarded = 0;
+    in->base = (double *)malloc((n + m) * sizeof(double)); /* the block is owned (and freed) through the input line */
+    if (!in->base) { fprintf(stderr, "h_filter: out of memory\n"); exit(2); }
+    out->base = NULL;
+    if (lay == 2) { in->p = in->base; out->p = in->base + n; VF_COUNT("tf-lines-in-one-block-input-then-output"); }
+    else { out->p = in->base; in->p = in->base + m; VF_COUNT("tf-lines-in-one-block-output-then-input"); }
+    memset(in->base, 0xA5, (n + m) * sizeof(double));
+}
 static int line_canaries_ok(line_t const *l)
 {
     if (!l->guarded) { return 1; }
@@ -280,8 +302,7 @@ static void lib_run(scn_t const *s, double const *x, unsigned L, double *y, int 
     char b1[400], b2[400];
     if (!ctx) { fprintf(stderr, "h_filter: out of memory\n"); exit(2); }
     memset(ctx, 0xA5, sizeof(*ctx));
-    line_alloc(&in[0], cnum->n, guarded);
-    line_alloc(&out[0], cden->n, guarded);
+    lines_alloc(&in[0], cnum->n, &out[0], cden->n, guarded);
     vf_log("[%s] a_tf_init(num_n=%u num=%s, den_n=%u den=%s) lines=%s L=%u", tag, cnum->n, fmt_vec(b1, sizeof b1, cnum->c, cnum->n),
            cden->n, fmt_vec(b2, sizeof b2, cden->c, cden->n), guarded ? "canary-guarded" : "exact-size blocks", L);
     coef_stale(cnum); coef_stale(cden);
@@ -339,8 +360,7 @@ static void lib_run(scn_t const *s, double const *x, unsigned L, double *y, int 
                 if (memcmp(keep, cin->p, cin->n * sizeof(double)) != 0) { vf_viol("tf_set_den/input-line-touched", "step %u; %s", k, g_desc); }
                 break;
             default: /* EV_INIT */
-                line_alloc(&in[1], s->num[1].n, guarded);
-                line_alloc(&out[1], s->den[1].n, guarded);
+                lines_alloc(&in[1], s->num[1].n, &out[1], s->den[1].n, guarded);
                 have1_in = have1_out = 1;
                 cnum = &s->num[1];
                 cden = &s->den[1];
